@@ -152,19 +152,19 @@ pub fn judge(part: &str, case: &Case, tally: &mut Tally) -> Verdict {
     }
 }
 
-fn gen_raw(src: &mut Src, _i: usize) -> Case {
+pub fn gen_raw(src: &mut Src, _i: usize) -> Case {
     let big = src.chance(1, 6);
     super::c01::gen_history(src, big)
 }
 
-fn gen_tracked(src: &mut Src, _i: usize) -> Case {
+pub fn gen_tracked(src: &mut Src, _i: usize) -> Case {
     let mut case = gen::structured_case(src, true, true, 25, 10);
     case.limit = gen::limit(src);
     case
 }
 
 /// the three state shapes the property names
-fn gen_shapes(src: &mut Src, _i: usize) -> Case {
+pub fn gen_shapes(src: &mut Src, _i: usize) -> Case {
     let (cols, rows) = gen::small_size(src);
     let mut g = G::new(cols, rows);
     let mut case = Case::new(cols, rows, gen::limit(src));
